@@ -1,8 +1,9 @@
 ------------------------------ MODULE C05_MemoSM ------------------------------
 (***************************************************************************)
 (* The C05_Memo machine as TLA+ actions over one variable.  C05_Judge      *)
-(* steps these actions along the events recorded from the real mappers;    *)
-(* C05_MemoAbs model checks / proves the abstract version.                 *)
+(* steps these actions along the events recorded from the real mappers,    *)
+(* one TLC step per event.  (C05_MemoAbs is the unbounded abstract version *)
+(* with its TLAPS proof.)                                                  *)
 (***************************************************************************)
 EXTENDS C05_MemoImpl
 VARIABLE memo
